@@ -237,23 +237,19 @@ def _judge_make_subst_func(model, fn, module):
                    if "name" in n_.field_names}
     if "Variable" not in named_kinds:
         raise AnalysisError("Variable has no field 'name'")
-    glob = {"primitives": Opaque("module primitives")}
-    for st in module.tree.body:
-        if isinstance(st, ast.FunctionDef):
-            glob[st.name] = Closure(st, glob)
-        if isinstance(st, ast.Assign) and len(st.targets) == 1 and isinstance(
-                st.targets[0], ast.Name) and isinstance(st.value, ast.Call) and \
-                ast.unparse(st.value) == "object()":
-            glob[st.targets[0].id] = object()
+    from ..absint import module_env
+    glob = module_env(module.tree, {"primitives": Opaque("module primitives")})
     for kind in ("Variable", "Subscript", "Lookup"):
+      for r_node, r_name in (("R-node", "R-name"), (0, "R-name"),
+                             ("R-node", 0), (0.0, False)):
         for by_node in (False, True):
             for by_name in (False, True):
                 node = Tok(kind, "x")
                 table = {}
                 if by_node:
-                    table[node] = "R-node"
+                    table[node] = r_node       # (falsy replacements count)
                 if by_name:
-                    table["x"] = "R-name"
+                    table["x"] = r_name
                 table[Tok("Variable", "other")] = "R-other"
 
                 def attrs(it, n_, base, attr):
@@ -268,11 +264,14 @@ def _judge_make_subst_func(model, fn, module):
                     what = getattr(a[1], "what", "")
                     if what.endswith("Variable"):
                         return isinstance(a[0], Tok) and a[0].kind == "Variable"
+                    _r = __import__("pv.absint", fromlist=["x"]).default_isinstance(a[0], a[1])
+                    if _r is not None:
+                        return _r
                     raise AnalysisError(f"isinstance(..., {a[1]!r})")
                 it = Interp(calls={"isinstance": isinst}, attrs=attrs,
                             globals_=glob, max_steps=5000)
-                want = "R-node" if by_node else (
-                    "R-name" if by_name and kind == "Variable" else None)
+                want = r_node if by_node else (
+                    r_name if by_name and kind == "Variable" else None)
                 label = (f"{kind} node, table has "
                          f"{'the node' if by_node else ''}"
                          f"{' and ' if by_node and by_name else ''}"
@@ -287,15 +286,21 @@ def _judge_make_subst_func(model, fn, module):
                 except Raised as r:
                     wit.append(f"{label}: raises at line {r.node.lineno}")
                     continue
-                if got != want:
-                    wit.append(f"{label}: gives {got!r}, expected {want!r}")
+                if got != want or type(got) is not type(want):
+                    wit.append(f"{label} (entries {r_node!r} / {r_name!r}): "
+                               f"gives {got!r}, expected {want!r}")
     return wit
 
 
 def _check_make_subst_func(ctx, model):
     m, fn = model.func(f"{SUB}:make_subst_func")
-    wit = _judge_make_subst_func(model, fn, m)
-    ctx.ob("P0/make_subst_func/lookup-semantics", not wit, m.loc(fn),
+    try:
+        wit = _judge_make_subst_func(model, fn, m)
+    except AnalysisError as e:
+        wit = None              # the judge cannot read this tree: the
+        ctx.extra["judge_unavailable:make_subst_func"] = str(e)   # rules decide
+    if wit is not None:
+      ctx.ob("P0/make_subst_func/lookup-semantics", not wit, m.loc(fn),
            "interpreted on 12 (node kind, table) combinations: the node's own "
            "entry, else a Variable's name entry, else None" if not wit else
            "make_subst_func's lookup: " + "; ".join(wit[:3]))
@@ -303,9 +308,9 @@ def _check_make_subst_func(ctx, model):
     try:
         _check_make_subst_func_structural(ctx, model)
     except AnalysisError:
-        if wit:
+        if wit is None or wit:
             raise
-    if not wit:
+    if wit is not None and not wit:
         ctx.withdraw_failures_since(
             mark, "decided by interpreting the lookup on every table shape")
 
